@@ -45,6 +45,23 @@ pub fn random_par(rng: &mut Rng) -> String {
     s
 }
 
+/// (auto_newline, auto_ws, allow_unmatched) of a scanner state as written in the PAR text: the global directives before
+/// the first `%scanner` block / `%%` for INITIAL, the directives inside `%scanner NAME { .. }` otherwise.
+fn declared(text: &str, state: &str) -> (bool, bool, bool) {
+    let header_end = text.find("%%\n").unwrap_or(text.len());
+    let header = &text[..header_end];
+    let part: &str = if state == "INITIAL" {
+        &header[..header.find("%scanner").unwrap_or(header.len())]
+    } else {
+        let key = format!("%scanner {} {{", state);
+        match header.find(&key) {
+            Some(i) => { let rest = &header[i + key.len()..]; &rest[..rest.find('}').unwrap_or(rest.len())] }
+            None => "",
+        }
+    };
+    (!part.contains("%auto_newline_off"), !part.contains("%auto_ws_off"), part.contains("%allow_unmatched"))
+}
+
 pub fn cases(text: &str) {
     let r = std::panic::catch_unwind(|| obtain_grammar_config_from_string(text, false));
     match r {
@@ -63,7 +80,9 @@ pub fn cases(text: &str) {
                                 format!("({} {} {} {})", ti, if la.is_some() { 1 } else { 0 }, sx::s(pat), t)
                             })
                             .collect();
-                        println!("(mode {} {} {} {} {} ({}))", sx::s(text), sx::s(&sc.scanner_name), sc.auto_newline as u8, sc.auto_ws as u8, sc.allow_unmatched as u8, entries.join(" "));
+                        // the settings as DECLARED in the grammar text for this scanner state (not the ones the front end stored)
+                        let (nl, ws, au) = declared(text, &sc.scanner_name);
+                        println!("(mode {} {} {} {} {} ({}))", sx::s(text), sx::s(&sc.scanner_name), nl as u8, ws as u8, au as u8, entries.join(" "));
                     }
                     _ => println!("(mode {} {} panic)", sx::s(text), sx::s(&sc.scanner_name)),
                 }
